@@ -805,7 +805,9 @@ func Validate(dir Dir) error {
 	if err != nil {
 		return err
 	}
-	if ac.Sum() != ex.Sum() {
+	// Compare the entries as well: the sum is computed over the concatenation of names
+	// and hashes, and is therefore blind to bytes moved between a name and its hash.
+	if ac.Sum() != ex.Sum() || !slices.Equal(ac, ex) {
 		err := &ChecksumError{Total: len(ac)}
 		// Determine the reason for the mismatch. Iterate over the file sum,
 		// based on it determine if a file was removed, added or edited.
